@@ -80,7 +80,7 @@ func (c03) Generate(c *Ctx) []any {
 	n := c.Budget(48, 480)
 	for i := 0; i < n; i++ {
 		r := c.Rng
-		in := c03Input{Unroll: []string{"unset", "false", "true"}[i%3], UnrollLevel: []string{"top", "package", "interface", "interface-over-package"}[(i/3)%4]}
+		in := c03Input{Unroll: []string{"unset", "false", "true"}[i%3], UnrollLevel: []string{"top", "package", "interface", "interface-over-package", "parent"}[(i/3)%5]}
 		nm := 1 + r.Intn(3)
 		in.Generic = r.Intn(4) == 0
 		in.Decoy = i%4 != 3
@@ -203,7 +203,12 @@ func c03Config(in *c03Input) string {
 	if set && in.UnrollLevel == "top" {
 		fmt.Fprintf(&b, "template-data:\n  unroll-variadic: %s\n", in.Unroll)
 	}
-	b.WriteString("packages:\n  example.com/m/store:\n")
+	b.WriteString("packages:\n")
+	if set && in.UnrollLevel == "parent" {
+		// the module's root package is recursive and sets the option; the package under test is listed below it
+		fmt.Fprintf(&b, "  example.com/m:\n    config:\n      recursive: true\n      template-data:\n        unroll-variadic: %s\n", in.Unroll)
+	}
+	b.WriteString("  example.com/m/store:\n")
 	if set && in.UnrollLevel == "package" {
 		fmt.Fprintf(&b, "    config:\n      template-data:\n        unroll-variadic: %s\n", in.Unroll)
 	}
